@@ -16,7 +16,7 @@ RULE = ('1-3 bundles relayed in sequence by one node (so that state carried from
         'Received encoding and transmitted bytes are both decoded by the reference decoder and compared. Non-trivial: at least one hop-by-hop '
         'block present on input; distinct = digest of the bundle descriptors.')
 COMPONENTS = bc.COMPONENTS
-PROBES = ('in.prev_node', 'in.hop_count', 'in.two_hop_count', 'in.age', 'in.create_time_zero', 'in.unknown_ext', 'in.large_block_num', 'seq.multi', 'probe.negative_age', 'fault.busy_before_forward', 'in.duplicate_block_num')
+PROBES = ('in.prev_node', 'in.hop_count', 'in.two_hop_count', 'in.age', 'in.create_time_zero', 'in.unknown_ext', 'in.large_block_num', 'seq.multi', 'probe.negative_age', 'fault.busy_before_forward', 'in.duplicate_block_num', 'in.ipn_three_element_eid')
 ASSUMPTIONS = ['age is judged against the relay clock and only for non-negative differences (negative skew is a probe)',
                'hop counts are generated below their limit']
 CHUNK = 25
@@ -41,7 +41,7 @@ def gen(ch, tier):
             return cand
 
         for _ in range(ch.weighted('nprev', (3, 3, 1))):
-            blocks.append(dict(type=6, num=num(), crc_type=ch.pick('c', 3), flags=0, eid=ch.choice('prev', ('dtn://prev/', 'ipn:9.0', 'dtn://n1/'))))
+            blocks.append(dict(type=6, num=num(), crc_type=ch.pick('c', 3), flags=0, eid=ch.choice('prev', ('dtn://prev/', 'ipn:9.0', 'dtn://n1/', 'ipn:977000.9.0'))))
         for _ in range(ch.weighted('nhop', (3, 3, 2))):
             blocks.append(dict(type=10, num=num(), crc_type=ch.pick('c', 3), flags=ch.choice('hf', (0, 1)), limit=ch.choice('lim', (30, 255, 1000)), count=ch.choice('cnt', (0, 1, 22, 23, 24))))
         if ch.coin('age', 1, 2):
@@ -60,8 +60,8 @@ def gen(ch, tier):
             (order[ix], order[jx]) = (order[jx], order[ix])
         blocks = [blocks[ix] for ix in order]
         bundles.append(dict(
-            source=ch.choice('src', ('dtn://src/', 'ipn:3.1')), dest=ch.choice('dst', ('dtn://far/app', 'ipn:77.1')),
-            report_to=ch.choice('rpt', ('dtn:none', 'dtn://rpt/')), time=ch.choice('ct', (0, 820000000000, 820000000000)) , seqno=bix,
+            source=ch.choice('src', ('dtn://src/', 'ipn:3.1', 'ipn:977000.3.1', 'dtn://src/svc#frag')), dest=ch.choice('dst', ('dtn://far/app', 'ipn:77.1', 'ipn:977000.77.1', 'dtn://far/app?q=1')),
+            report_to=ch.choice('rpt', ('dtn:none', 'dtn://rpt/', 'ipn:977000.5.0')), time=ch.choice('ct', (0, 820000000000, 820000000000)) , seqno=bix,
             lifetime=ch.choice('life', (1000, 3600000)), flags=ch.choice('fl', (0, 4, 0x20)), pri_crc=ch.choice('pc', (0, 1, 2, 2)),
             pay_crc=ch.pick('yc', 3), plen=1 + ch.pick('plen', 60), tag=bix + 1, blocks=blocks, gap_ms=ch.choice('gap', (0, 1, 999, 60000)),
             busy_ms=ch.choice('busy', (0, 0, 0, 3, 40, 1500)), dup_nums=dup_nums))
@@ -215,6 +215,8 @@ def describe(run):
             counters['in.unknown_ext'] = 1
         if any(blk['num'] > 255 for blk in item['blocks']):
             counters['in.large_block_num'] = 1
+        if any(str(val).startswith('ipn:977000') for val in (item['source'], item['dest'], item['report_to'])):
+            counters['in.ipn_three_element_eid'] = 1
     if len(plan['bundles']) > 1:
         counters['seq.multi'] = 1
     sample = dict(skew_ms=plan['skew_ms'], bundles=[dict(time=item['time'], blocks=[(blk['type'], blk['num'], blk['crc_type']) for blk in item['blocks']],
